@@ -581,4 +581,3 @@ func TestC20Interval(t *testing.T) {
 		st.Case(stats.Hash("ivm", zi, base.Unix(), n), n != 0, nil)
 	})
 }
-
